@@ -54,6 +54,7 @@ type FuncV struct {
 	Builtin  string // non-empty: executor builtin closure (e.g. cache write-back)
 	Data     []Val
 	Recv     Val // bound method receiver
+	Sig      *types.Signature
 }
 
 type TupleV struct{ Elems []Val }
